@@ -38,6 +38,11 @@ int fake_upump_pump_blockers(struct upump *upump);
 /* number of active timers of the loop / earliest deadline among them (UINT64_MAX if none) */
 int fake_upump_timers(struct upump_mgr *mgr, uint64_t *earliest_p);
 
+/* ---- added for harness/C06_queue.c (real loop thread): what upump_mgr_run() does on a fake loop is the harness' business;
+ * the callback runs on the calling thread and its return value is upump_mgr_run's (global, reset it to NULL after the case) ---- */
+struct umutex;
+void fake_upump_set_run_cb(int (*cb)(struct upump_mgr *mgr, struct umutex *mutex, void *opaque), void *opaque);
+
 /* fake clock bound to a loop's virtual time */
 struct uclock *fake_uclock_alloc(struct upump_mgr *mgr, uint64_t offset);
 #endif
